@@ -28,7 +28,7 @@ ASSUMPTIONS = [
     "a user type's declared failures are ValueError and TypeError; anything else it raises is undeclared",
     "inputs that merely take long (alias bombs) are not generated: termination is judged with a 10 s CPU budget per run",
 ]
-PROBES = ["stdout-absent", "rejected-AE", "rejected-exit2", "exit0-printed", "fault-fired", "injected-propagated", "stdin-closed", "cfg-path-state-fault", "cfg-content-fault", "cyclic-alias", "subclass-bad-import", "env-list-broken-json", "nested-subconfig-fault"]
+PROBES = ["url-or-fsspec-read-mode", "stdout-absent", "rejected-AE", "rejected-exit2", "exit0-printed", "fault-fired", "injected-propagated", "stdin-closed", "cfg-path-state-fault", "cfg-content-fault", "cyclic-alias", "subclass-bad-import", "env-list-broken-json", "nested-subconfig-fault"]
 ANCHOR_FILES = ("_core", "_actions", "_typehints", "_util", "_loaders_dumpers")
 NO_SHRINK = ("parser/opts", "parser/opts/*", "world/dirs", "world/cwd")
 SHRINK_DICTS = ("world/files", "world/env", "world/symlinks", "ops/*/obj", "ops/*/env")
@@ -355,6 +355,9 @@ def generate(rng, tier):
         ops.append(op)
     sc = {"parser": spec, "world": w, "ops": ops, "faults": [], "content_faults": [fk1, fk2], "tier": tier}
     sc["want_faults"] = rng.random() < 0.45
+    # process-wide setting: reading configs from URLs / fsspec enabled (possibly enabled twice, or one after the
+    # other) -- local paths, all this property's inputs name, have to behave exactly the same
+    sc["read_mode"] = rng.choice(READ_MODES) if rng.random() < 0.08 else None
     return sc
 
 
@@ -455,9 +458,28 @@ def _has_cyclic(op, sc):
     return False
 
 
+READ_MODES = [["urls"], ["urls", "urls"], ["fsspec"], ["fsspec", "fsspec"], ["urls", "fsspec"], ["fsspec", "urls"], ["urls", "off"], ["urls", "urls", "off"]]
+
+
+def apply_read_mode(calls):
+    from jsonargparse import set_config_read_mode
+
+    for c in calls:
+        if c == "urls":
+            set_config_read_mode(urls_enabled=True)
+        elif c == "fsspec":
+            set_config_read_mode(fsspec_enabled=True)
+        else:
+            set_config_read_mode(urls_enabled=False, fsspec_enabled=False)
+
+
 def execute(sc, ctx):
     sim, root = ctx.sim, ctx.root
     sim.begin_op(-1, "build")
+    if sc.get("read_mode"):
+        orm = run_op(lambda: apply_read_mode(sc["read_mode"]))
+        sim.probe("url-or-fsspec-read-mode")
+        ctx.notes["read_mode"] = [sc["read_mode"], orm.brief()]
     ob = run_op(lambda: zoo.build(sc["parser"]))
     if ob.kind != "ret":
         ctx.notes["build"] = ob.brief()
